@@ -264,6 +264,18 @@ func (t *Transport) ReleaseWrites() {
 	}
 }
 
+// ReleaseOneWrite lets the oldest held asynchronous write complete and keeps holding: a write started from its
+// completion (the next frame of a flush chain) is held again.
+func (t *Transport) ReleaseOneWrite() bool {
+	if len(t.heldWrites) == 0 {
+		return false
+	}
+	fn := t.heldWrites[0]
+	t.heldWrites = t.heldWrites[1:]
+	t.complete(t.DeferWrites, fn)
+	return true
+}
+
 func (t *Transport) HeldWrites() int { return len(t.heldWrites) }
 
 func (t *Transport) AsyncWrite(b []byte, cb sonic.AsyncCallback)    { t.asyncWrite(b, false, cb) }
